@@ -122,4 +122,15 @@ theorem decided_prob (μ : Measure (ℝ × ℝ)) [IsFiniteMeasure μ] (c : List 
   · exact (measureReal_mono (decided_subset_closed c i p hi)).trans hc
   · exact ho.trans (measureReal_mono (open_subset_decided c hnd i p hi))
 
+/-- the Voronoi cells depend on the SET of table points only (not on their order, i.e. not on the labelling) -/
+theorem closedCell_congr {c c' : List (ℝ × ℝ)} (h : ∀ q, q ∈ c ↔ q ∈ c') (p : ℝ × ℝ) :
+    closedCell c p = closedCell c' p := by
+  ext r; simp only [closedCell, mem_ofPred_eq]
+  exact ⟨fun hr q hq => hr q ((h q).mpr hq), fun hr q hq => hr q ((h q).mp hq)⟩
+
+theorem openCell_congr {c c' : List (ℝ × ℝ)} (h : ∀ q, q ∈ c ↔ q ∈ c') (p : ℝ × ℝ) :
+    openCell c p = openCell c' p := by
+  ext r; simp only [openCell, mem_ofPred_eq]
+  exact ⟨fun hr q hq => hr q ((h q).mpr hq), fun hr q hq => hr q ((h q).mp hq)⟩
+
 end PyPhysim.C16
